@@ -83,3 +83,6 @@ fn c11_sample_to_slice_wrong_len_panics() {
     let mut rng = crate::verif_kani::rngs::AnyRng;
     d.sample_to_slice(&mut rng, &mut out);
 }
+
+// (a unit comparing DirichletFromGamma::new(alpha).samplers[j] with Gamma::new(alpha_j, 1) for n = 2 was tried with a memoised
+// sqrt contract and did not finish in 60 min - the gamma-normalisation structure is not reached)
